@@ -307,7 +307,7 @@ fn gen_scalar(rng: &mut Rng, counter: &mut usize, sentinels: bool) -> Value {
         4 => json!(1),
         5 => json!(-1),
         6 => json!(1570000000),
-        7 => json!(1.5),
+        7 => if rng.chance(1, 2) { json!(1.5) } else { json!(180.0) },   // a float with no fraction stays a float
         8 => json!(""),
         9 => json!("US"),
         10 => json!("..."),
@@ -352,6 +352,8 @@ fn gen_mark(rng: &mut Rng, cfg: &GenCfg, next_id: &mut usize) -> Mark {
         if cfg.reference {
             // keep salts distinct even when short
             salt.push_str(&format!("{}", id));
+            // a salt is any string: one in six is not base64url text (padded standard base64, dots, blanks, a word)
+            if rng.chance(1, 6) { salt.push_str(*rng.pick(&["+/==", "a.b.c", " two words ", "=", "ÿ", "%7E", "\"q\""])); }
         }
         Mark::Marked { id, salt, fmt: if cfg.reference { rng.below(4) as u8 } else { 0 }, disc: None }
     } else {
